@@ -306,6 +306,45 @@ pub fn campaign(seed: u64, count: u64, max_ops: u64, cfg: &PhysCfg, ops_path: &s
     out
 }
 
+/// C03 at scale: a V3 file with more than 236 FAT sectors (two DIFAT sectors), written as three
+/// streams with removals in between; the ops go to `ops_path`, the final image to `<dir>/huge_v3.cfb`.
+pub fn huge(dir: &str, ops_path: &str, impl_path: &str) -> Vec<String> {
+    let mb = 1usize << 20;
+    let lines: Vec<String> = vec![
+        "create 3".into(),
+        format!("putpat {} {} 1", enc("/a"), 5 * mb + 300),
+        format!("putpat {} {} 2", enc("/small"), 1000),
+        format!("putpat {} {} 3", enc("/b"), 6 * mb + 17),
+        format!("rm {}", enc("/a")),
+        format!("putpat {} {} 4", enc("/c"), 9 * mb + 4096),
+        format!("mkdir {}", enc("/d")),
+        format!("putpat {} {} 5", enc("/d/e"), 2 * mb),
+    ];
+    let mut real = Real::new();
+    let mut model = RefModel::new();
+    let mut ops_out = String::new();
+    let mut impl_out = String::new();
+    let mut violations = vec![];
+    for (i, line) in lines.iter().enumerate() {
+        let observed = real.exec(line);
+        if let Some(exp) = model.apply(line) {
+            if exp != observed {
+                violations.push(format!("history 0 (seed 0) step {}: {} gave {} but the abstract tree model says {}", i, short(line), short(&observed), short(&exp)));
+            }
+        }
+        writeln!(ops_out, "{}", line).unwrap();
+        writeln!(impl_out, "{} | {}", observed, tail(&real)).unwrap();
+    }
+    if let Some(v) = reopen_violation(&mut real) {
+        violations.push(format!("history 0 (seed 0) step {}: after the huge history: {}", lines.len(), v));
+    }
+    std::fs::write(format!("{}/huge_v3.cfb", dir), real.image()).unwrap();
+    std::fs::write(ops_path, ops_out).unwrap();
+    std::fs::write(impl_path, impl_out).unwrap();
+    println!("STAT huge_bytes {}", real.image().len());
+    violations
+}
+
 /// Re-executes an ops file; `image <file>` lines write the real image to `<file>.impl`.
 pub fn replay(ops_path: &str, impl_path: &str) -> Vec<String> {
     let text = std::fs::read_to_string(ops_path).unwrap();
